@@ -940,6 +940,10 @@ func (g *G) rangeOpts(allowRev, allowLimit bool) (rev, ws bool, off, cnt int, to
 	if allowLimit && g.intn("limit", 0, 2) == 0 {
 		off = g.intn("off", 0, 10)
 		cnt = g.intn("cnt", -1, 10)
+		if !g.Plain && g.intn("limitcls", 0, 3) == 0 {
+			off = rapid.SampledFrom([]int{0, 1, 2, 1000000, math.MaxInt32, math.MaxInt64 - 1, math.MaxInt64}).Draw(g.T, "offb")
+			cnt = rapid.SampledFrom([]int{0, 1, -1, -2, math.MaxInt32, math.MaxInt64 - 1, math.MaxInt64, math.MinInt64}).Draw(g.T, "cntb")
+		}
 		toks = append(toks, []string{g.Casing("LIMIT"), itoa(off), itoa(cnt)})
 	}
 	return
